@@ -1135,6 +1135,31 @@ pub fn gen_big(p: &mut Prng, id: String) -> SimCase {
     c
 }
 
+/// a crowd: 33 to 70 copies of ONE template machine (padding, blocking, timer or cancel) on one side, so
+/// that more than 32 (and more than 64) machines act, arm timers and fire on the same event at the same
+/// instants; the other side has none or one machine
+pub fn gen_crowd(p: &mut Prng, id: String) -> SimCase {
+    let n = *p.pick(&[33usize, 40, 65, 70]);
+    let one = match p.below(5) {
+        0 | 1 => t_padding(p),
+        2 => t_blocking(p),
+        3 => t_timer(p),
+        _ => t_cancel(p),
+    };
+    let crowd: Vec<Machine> = (0..n).map(|_| one.clone()).collect();
+    let other: Vec<Machine> = if p.chance(1, 2) { vec![] } else { vec![gen_sim_machine(p, false)] };
+    let (mc, ms) = if p.chance(2, 3) { (crowd, other) } else { (other, crowd) };
+    let trace0 = gen_trace(p);
+    let trace = decorate(p, trace0);
+    let delay_ns = *p.pick(DELAYS);
+    let mut c = SimCase { id, kind: "crowd".into(), mc, ms, trace, delay_ns, runs: vec![] };
+    let mut main = base_run("main", p, None);
+    main.msi = 600;
+    main.mtl = 0;
+    expand_runs(&mut c, main, p);
+    c
+}
+
 pub fn gen_kind(kind: &str, p: &mut Prng, id: String) -> Option<SimCase> {
     Some(match kind {
         "general" => gen_general(p, id),
@@ -1143,6 +1168,7 @@ pub fn gen_kind(kind: &str, p: &mut Prng, id: String) -> Option<SimCase> {
         "timers" => gen_timers(p, id),
         "scenario" => gen_scenario(p, id),
         "big" => gen_big(p, id),
+        "crowd" => gen_crowd(p, id),
         _ => return None,
     })
 }
